@@ -76,7 +76,53 @@ def closed_track_channel_maps():
     return True, n, ""
 
 
-CLOSED = [("track_channel_maps_six_modes", closed_track_channel_maps)]
+def closed_import_grouping():
+    """assign_group_part_voice (import side) for every ordered list of <= 4 distinct (track, channel) pairs over 3 x 3 and every mode: the
+    documented meaning of the six modes, numbering by first appearance; make_track_to_part_mapping = the parts each track contributes to"""
+    from partitura.io.importmidi import assign_group_part_voice, make_track_to_part_mapping
+    n = 0
+    pairs = [(t, c) for t in (0, 1, 2) for c in (0, 1, 5)]
+
+    def rank(seq):
+        out = {}
+        for x in seq:
+            out.setdefault(x, len(out))
+        return out
+    for k in (1, 2, 3, 4):
+        for combo in itertools.permutations(pairs, k):
+            if k == 4 and combo[0] > combo[-1]:
+                continue  # half of the orders is enough to see order dependence
+            for mode in range(6):
+                n += 1
+                gpv, part_names, group_names = assign_group_part_voice(mode, {key: [] for key in combo}, {0: "Piano"})
+                tr_rank = rank(t for t, _ in combo)
+                pair_rank = rank(combo)
+                want = []
+                for (t, c) in combo:
+                    if mode == 0:
+                        want.append((None, tr_rank[t], 1 + rank(cc for tt, cc in combo if tt == t)[c]))
+                    elif mode == 1:
+                        want.append((tr_rank[t], pair_rank[(t, c)], None))
+                    elif mode == 2:
+                        want.append((None, 0, 1 + tr_rank[t]))
+                    elif mode == 3:
+                        want.append((None, tr_rank[t], None))
+                    elif mode == 4:
+                        want.append((None, 0, None))
+                    else:
+                        want.append((None, pair_rank[(t, c)], None))
+                if list(gpv) != want:
+                    return False, n, {"input": [list(combo), mode], "what": "(group, part, voice) keys %r, the mode means %r" % (list(gpv), want)}
+                t2p = make_track_to_part_mapping(list(combo), gpv)
+                want_t2p = {}
+                for (t, c), (g, p_, v) in zip(combo, want):
+                    want_t2p.setdefault(t, set()).add(p_)
+                if {a: set(b) for a, b in t2p.items()} != want_t2p:
+                    return False, n, {"input": [list(combo), mode], "what": "track -> parts %r, expected %r" % (dict(t2p), want_t2p)}
+    return True, n, ""
+
+
+CLOSED = [("track_channel_maps_six_modes", closed_track_channel_maps), ("import_grouping_six_modes", closed_import_grouping)]
 
 
 # ------------------------------------------------------------------------------------------------ bounded
